@@ -95,6 +95,8 @@ TSilent == /\ \/ (pc = "loop" /\ TryDecode)
               \/ PongFinish
               \* adaptors on real sockets: their internal reads and the atomic writes are not observable
               \/ (~IsStream /\ (FillUdpBuffered \/ FillWs \/ FillEof))
+              \* ... nor is the socket's read time-out (an I/O error to the connection); the Result event that follows decides
+              \/ (IsUdp /\ l <= Len(Rec) /\ Rec[l].ev = "Result" /\ Rec[l].t = "io_err" /\ FillErr)
               \/ (Atomic /\ pongleft > 0 /\ PongWrite(pongleft))
               \/ (Atomic /\ wleft > 0 /\ WriteAccept(wleft))
            /\ UNCHANGED <<l, rcount, ucount>>
